@@ -7,6 +7,7 @@ R4 switch fields exist / precede; switch-table keys are enum members
 R5 Block-level cache coherence (Block.__setitem__ / serialize_var)
 R6 pod flag forwarded to delegated decoders / readers
 R7 str()-built plain-data forms agree with the field table (order, separators, no trimming)
+R8 guarded memo slots (size memo behind template guessing) are published once, complete
 """
 from __future__ import annotations
 
@@ -1204,10 +1205,108 @@ def r4(ctx, regs: List[Reg], tmpl):
 
 # ------------------------------------------------------------------------------------------ R5
 
-def _is_cache_invalidation(st, cache="_ser_cache") -> bool:
-    return st.path.endswith("." + cache) and (
-        st.kind in ("delitem",) or (st.kind == "mutcall" and st.method in ("pop", "clear", "popitem"))) or \
-        (st.path.endswith("." + cache) and st.kind == "assign")
+class _CacheModel:
+    """Where Block keeps decoded values: the attribute(s) deserialize_var tests for a hit, seen through forwarding
+    properties (`return self._x.y`) and through a collaborator object the constructor stores in the attribute
+    (its methods are classified by what they do to their own containers)."""
+
+    _INVAL = ("pop", "clear", "popitem")
+    _FILL = ("setdefault", "update")
+
+    def __init__(self, repo: Repo, blk: ClassInfo):
+        self.repo, self.blk = repo, blk
+        self.alias: Dict[str, str] = {}
+        for k in repo.mro(blk):
+            for f in k.methods.values():
+                if any((ap(d) or "").split(".")[-1] in ("property", "cached_property") for d in f.node.decorator_list):
+                    rets = [n for n in walk(f.node) if isinstance(n, ast.Return) and n.value is not None]
+                    if len(rets) == 1:
+                        p = ap(rets[0].value) or ""
+                        if p.startswith("self.") and "(" not in p:
+                            self.alias.setdefault(f.name, p.split(".")[1].replace("[]", ""))
+        dv = repo.lookup_method(blk, "deserialize_var")
+        if dv is None:
+            raise AnalysisError("Block.deserialize_var vanished")
+        self.roots: Set[str] = set()
+        for g in class_methods_reachable(repo, dv, depth=2):
+            for n in walk(g.node, into_defs=True):
+                if isinstance(n, ast.Compare) and len(n.ops) == 1 and isinstance(n.ops[0], (ast.In, ast.NotIn)):
+                    p = ap(n.comparators[0]) or ""
+                    if p.startswith("self.") and p.count(".") >= 1:
+                        attr = p.split(".")[1].replace("[]", "").replace("()", "")
+                        if attr != "vars":
+                            self.roots.add(self.alias.get(attr, attr))
+        if not self.roots:
+            raise AnalysisError("C09.R5: Block.deserialize_var has no cache-hit test any more (cache not found)")
+        self.collab: Dict[str, ClassInfo] = {}
+        init = repo.lookup_method(blk, "__init__")
+        if init is not None:
+            for st in stores(init.node):
+                if st.kind == "assign" and st.path.startswith("self.") and isinstance(st.value, ast.Call):
+                    attr = st.path.split(".")[1]
+                    k = _resolve_cls(repo, init.module, st.value.func)
+                    if attr in self.roots and k is not None:
+                        self.collab[attr] = k
+        self._mcache: Dict[str, Optional[str]] = {}
+
+    def root_of(self, path: Optional[str]) -> Optional[str]:
+        if not path or not path.startswith("self."):
+            return None
+        attr = path.split(".")[1].replace("[]", "").replace("()", "")
+        attr = self.alias.get(attr, attr)
+        return attr if attr in self.roots else None
+
+    def _method_kind(self, root: str, name: str) -> Optional[str]:
+        key = f"{root}.{name}"
+        if key in self._mcache:
+            return self._mcache[key]
+        kind = None
+        k = self.collab.get(root)
+        m = self.repo.lookup_method(k, name) if k is not None else None
+        if m is not None:
+            kinds = set()
+            for g in class_methods_reachable(self.repo, m, depth=2):
+                for st in stores(g.node, into_defs=True):
+                    if not st.path.startswith("self."):
+                        continue
+                    if st.kind in ("setitem", "augsetitem") or (st.kind == "mutcall" and st.method in self._FILL):
+                        kinds.add("store")
+                    elif st.kind == "delitem" or (st.kind == "mutcall" and st.method in self._INVAL) or st.kind == "assign":
+                        kinds.add("inval")
+            kind = "store" if "store" in kinds else "inval" if "inval" in kinds else None
+        self._mcache[key] = kind
+        return kind
+
+    def ops(self, f: FuncInfo) -> List[Tuple[ast.AST, str, ast.AST]]:
+        """(statement, 'inval'|'store', node) for every cache operation in f."""
+        out = []
+        seen = set()
+        for st in stores(f.node, into_defs=True):
+            root = self.root_of(st.path)
+            if root is None:
+                continue
+            kind = None
+            if st.kind in ("setitem", "augsetitem") or (st.kind == "mutcall" and st.method in self._FILL):
+                kind = "store"
+            elif st.kind == "delitem" or (st.kind == "mutcall" and st.method in self._INVAL) or st.kind == "assign":
+                kind = "inval"
+            if kind:
+                out.append((enclosing_stmt(st.node), kind, st.target if st.kind != "mutcall" else st.node.func))
+                seen.add(id(st.node))
+        for c in calls(f.node, into_defs=True):
+            if id(c) in seen or not isinstance(c.func, ast.Attribute):
+                continue
+            root = self.root_of(ap(c.func.value))
+            if root is None or (ap(c.func.value) or "").count(".") != 1:
+                continue
+            kind = self._method_kind(root, c.func.attr)
+            if kind:
+                out.append((enclosing_stmt(c), kind, c.func))
+        return out
+
+    def membership_test(self, t: ast.AST) -> bool:
+        return isinstance(t, ast.Compare) and len(t.ops) == 1 and isinstance(t.ops[0], (ast.In, ast.NotIn)) \
+            and self.root_of(ap(t.comparators[0])) is not None
 
 
 def r5(ctx):
@@ -1215,6 +1314,8 @@ def r5(ctx):
     ctx.rule("C09.R5", "Block cache coherence: every raw store into Block.vars is accompanied by dropping the "
                        "_ser_cache entry; serialize_var never leaves a cache entry without the matching raw store")
     blk = repo.cls("Block", MSGMOD)
+    cm = _CacheModel(repo, blk)
+    ctx.stats["C09.R5.cache roots"] = sorted(cm.roots)
     # (a) raw stores
     nraw = 0
     for name, f in blk.methods.items():
@@ -1225,24 +1326,17 @@ def r5(ctx):
         if not raw:
             continue
         cfg = CFG(f.node)
-        inval_nodes = set()
-        for s in sts:
-            if _is_cache_invalidation(s):
-                stmt = enclosing_stmt(s.node)
-                for n in cfg.nodes:
-                    if n.ast is stmt:
-                        inval_nodes.add(n)
+        inval_stmts = {id(stmt) for stmt, kind, _ in cm.ops(f) if kind == "inval"}
+        inval_nodes = {n for n in cfg.nodes if n.ast is not None and id(n.ast) in inval_stmts}
         # a membership test of the cache discharges as well when its "present" side leads to the drop
         # (`if key in cache: pop` / `if key not in cache: return` ... pop): an absent entry needs no drop
-        inval_stmts = {n.ast for n in inval_nodes}
         for a in walk(f.node, into_defs=True):
             if not isinstance(a, ast.If):
                 continue
             t, neg = a.test, False
             if isinstance(t, ast.UnaryOp) and isinstance(t.op, ast.Not):
                 t, neg = t.operand, True
-            if not (isinstance(t, ast.Compare) and len(t.ops) == 1 and isinstance(t.ops[0], (ast.In, ast.NotIn))
-                    and (ap(t.comparators[0]) or "").endswith("._ser_cache")):
+            if not cm.membership_test(t):
                 continue
             present_in_body = isinstance(t.ops[0], ast.In) != neg
             from ..core import always_exits, _block_of
@@ -1255,7 +1349,7 @@ def r5(ctx):
                 side = block[[i for i, x in enumerate(block) if x is a][0] + 1:] if block else []
             else:
                 side = []
-            if any(y in inval_stmts for x in side for y in ast.walk(x)):
+            if any(id(y) in inval_stmts for x in side for y in ast.walk(x)):
                 for n in cfg.nodes_for(a):
                     inval_nodes.add(n)
         for s in raw:
@@ -1288,18 +1382,19 @@ def r5(ctx):
                        "raw value changed without invalidating the block's decoded-value cache")
 
     # (b) serialize_var
-    sv = blk.methods.get("serialize_var")
+    sv = repo.lookup_method(blk, "serialize_var")
     ctx.require(sv is not None, "Block.serialize_var vanished")
     cfg = CFG(sv.node)
     sts = stores(sv.node, into_defs=True)
-    cache_st = [s for s in sts if s.path == "self._ser_cache" and s.kind == "setitem"]
+    ops = cm.ops(sv)
+    cache_st = [(stmt, node) for stmt, kind, node in ops if kind == "store"]
     raw_st = [s for s in sts if (s.path == "self" and s.kind == "setitem") or (s.path == "self.vars" and s.kind == "setitem")]
     ctx.ob("C09.R5", "Block.serialize_var stores the raw serialized value", bool(raw_st), sv.where,
            "no store of the serialized value into the block")
     raw_nodes = {n for n in cfg.nodes for s in raw_st if n.ast is enclosing_stmt(s.node)}
-    inval = {n for n in cfg.nodes for s in sts if _is_cache_invalidation(s) and n.ast is enclosing_stmt(s.node)}
-    for s in cache_st:
-        cnodes = [n for n in cfg.nodes if n.ast is enclosing_stmt(s.node)]
+    inval = {n for n in cfg.nodes for stmt, kind, _ in ops if kind == "inval" and n.ast is stmt}
+    for stmt, node in cache_st:
+        cnodes = [n for n in cfg.nodes if n.ast is stmt]
         ok = True
         wit = None
         reach = cfg.reachable([cfg.entry], avoid=lambda x: x in raw_nodes, exc=False)
@@ -1310,8 +1405,8 @@ def r5(ctx):
                                  avoid=lambda x: x in raw_nodes or x in inval, exc=True)
             if w is not None:
                 ok, wit = False, w
-        ctx.ob("C09.R5", f"Block.serialize_var: cache store {norm(s.target)} always paired with the raw store", ok,
-               ctx.w(sv, s.node),
+        ctx.ob("C09.R5", f"Block.serialize_var: cache store {norm(node)} always paired with the raw store", ok,
+               ctx.w(sv, stmt),
                "a path (possibly exceptional) leaves the decoded value cached although the matching raw value was "
                "never stored", path=cfg.describe_path(wit) if wit else None)
     if not cache_st:
@@ -1503,6 +1598,58 @@ def r7(ctx):
                f"parse into different fields")
 
 
+# ------------------------------------------------------------------------------------------ R8
+
+def r8(ctx):
+    """Guarded memo slots (`if self.X is not MISSING: return self.X`) feed template guessing by size: the slot is the
+    'done' marker, so it may only ever hold the finished value."""
+    repo = ctx.repo
+    ctx.rule("C09.R8", "a memo slot tested by its own method as the 'already computed' marker is published once, "
+                       "complete: no accumulation in the slot, no second store to it later on the same path")
+    n = 0
+    for f in repo.all_funcs:
+        if f.parent_fn is not None or f.cls is None or f.module.rel not in TZ_MODULES:
+            continue
+        tested: Set[str] = set()
+        for node in walk(f.node, into_defs=False):
+            if isinstance(node, ast.Compare) and len(node.ops) == 1 and isinstance(node.ops[0], (ast.Is, ast.IsNot)):
+                p = ap(node.left)
+                if p and p.startswith("self.") and p.count(".") == 1 and isinstance(parent(node), (ast.If, ast.UnaryOp, ast.BoolOp)):
+                    tested.add(p)
+        if not tested:
+            continue
+        sts = [s_ for s_ in stores(f.node, into_defs=False) if s_.path in tested and s_.kind in ("assign", "augassign")]
+        returned = {ap(r.value) for r in walk(f.node) if isinstance(r, ast.Return) and r.value is not None}
+        for slot in sorted(tested):
+            mine = [s_ for s_ in sts if s_.path == slot]
+            if not mine or slot not in returned:
+                continue
+            n += 1
+            cfg = CFG(f.node)
+            nodes = {id(enclosing_stmt(s_.node)): s_ for s_ in mine}
+            store_nodes = [x for x in cfg.nodes if x.ast is not None and id(x.ast) in nodes]
+            problem = None
+            for s_ in mine:
+                if s_.kind == "augassign":
+                    problem = (s_.node, f"`{norm(s_.node)}` accumulates in the published slot")
+            if problem is None:
+                for x in store_nodes:
+                    hit = cfg.path_exists([x], lambda y: y in store_nodes, exc=False)
+                    if hit is not None:
+                        problem = (x.ast, f"`{norm(x.ast)}` is followed by another store to {slot} "
+                                          f"(line {getattr(hit.ast, 'lineno', '?')}) on the same path")
+                        break
+            ctx.ob("C09.R8", f"{f.qual}: memo {slot} is published once, complete", problem is None,
+                   ctx.w(f, problem[0]) if problem else f.where,
+                   (problem[1] if problem else "") + f": the guard `{slot} is not <unset>` already passes while the value "
+                   f"is still being built, so a re-entrant or concurrent caller gets a partial result (template guessing "
+                   f"by size then picks no / the wrong template)")
+    ctx.stats["C09.R8.guarded memo slots"] = n
+    if n == 0:
+        ctx.note("C09.R8: no guarded memo slot left in the codec modules; nothing to check")
+        ctx.ob("C09.R8", "no guarded memo slot in the codec modules", True, SERMOD)
+
+
 # ------------------------------------------------------------------------------------------ driver
 
 def run(ctx):
@@ -1517,6 +1664,7 @@ def run(ctx):
     r5(ctx)
     r6(ctx)
     r7(ctx)
+    r8(ctx)
     ctx.assume("byte-for-byte fixed points of the ~200 serializers on generated payloads and the 'printed form "
                "evaluates back' clause are not decided statically")
     ctx.assume("Python semantics encoded: enum.IntFlag(negative) / IntFlag.__or__ are not value preserving on "
